@@ -558,6 +558,65 @@ func init() {
 				}})
 			}
 		}
+		// outputs of marker-struct form (and pointers to them) are returned as they are,
+		// also when the function is memoized and was first needed as a converter
+		type outS struct {
+			am.Struct
+			A T0
+		}
+		for _, once := range []bool{false, true} {
+			for _, ptr := range []bool{false, true} {
+				for _, convFirst := range []bool{false, true} {
+					once, ptr, convFirst := once, ptr, convFirst
+					desc := fmt.Sprintf("marker-struct output (pointer=%v) once=%v used-as-converter-first=%v, then called directly twice", ptr, once, convFirst)
+					emit(apiCase{Desc: desc, Run: func() (fs []Finding) {
+						add := func(clause, m string, a ...interface{}) {
+							fs = append(fs, Finding{"C17", clause, desc + ": " + fmt.Sprintf(m, a...)})
+						}
+						n := 0
+						var last interface{}
+						var fn interface{}
+						if ptr {
+							fn = func() (*outS, error) { n++; v := &outS{A: T0{fmt.Sprintf("r%d", n)}}; last = v; return v, nil }
+						} else {
+							fn = func() (outS, error) { n++; v := outS{A: T0{fmt.Sprintf("r%d", n)}}; last = v; return v, nil }
+						}
+						var opts []am.Arg
+						if once {
+							opts = append(opts, am.FuncOnce())
+						}
+						f, err := am.NewFunc(fn, opts...)
+						if err != nil {
+							add("rejected", "NewFunc: %v", err)
+							return
+						}
+						if convFirst {
+							consumer := am.MustFunc(am.NewFunc(func(in struct {
+								am.Struct
+								A T0
+							}) string {
+								return in.A.P
+							}))
+							if r := consumer.Call(am.ConverterFunc(f)); r.Err() != nil || r.Out(0) != "r1" {
+								add("as-converter", "consumer observed %v err=%v", r.Out(0), r.Err())
+								return
+							}
+						}
+						for call := 0; call < 2; call++ {
+							r := f.Call()
+							if r.Err() != nil || r.Len() != 1 {
+								add("len", "call %d: Len()=%d Err()=%v", call, r.Len(), r.Err())
+								return
+							}
+							if got := r.Out(0); got != last {
+								add("out", "call %d: Out(0)=%#v (%T), the function returned %#v (%T)", call, got, got, last, last)
+							}
+						}
+						return
+					}})
+				}
+			}
+		}
 		// resolution failures: length 0 and a non-nil error
 		fail := func(desc string, mk func() am.Result) {
 			emit(apiCase{Desc: desc, Run: func() (fs []Finding) {
